@@ -1165,6 +1165,7 @@ func ruleC06Version(c *Checker, R string) {
 			case l.Kind == "param":
 			case l.Kind == "field" && l.Field == vv:
 			case l.Kind == "call" && l.Callee != nil && isFunc(l.Callee, "github.com/apparentlymart/go-versions/versions", "ParseVersion"):
+			case l.Kind == "call" && l.Callee != nil && p.wrapsParseVersion(l.Callee):
 			case l.Kind == "zero":
 			default:
 				return false, leafDesc(p, l)
@@ -1190,4 +1191,35 @@ func ruleC06Version(c *Checker, R string) {
 			c.check(ok, R, p.FuncName(fn), "argument of Versioned", p.Pos(ci.Pos()), "the version is handed on as given / as parsed", "the version handed to Versioned is transformed ("+why+"): a parsed address differs from the one that was printed (e.g. build metadata dropped)")
 		}
 	}
+}
+
+
+// wrapsParseVersion: a module function (string) (Version, error) every
+// non-error result of which is the result of versions.ParseVersion on its
+// parameter (a guard around the library call, e.g. one that recovers).
+func (p *Prog) wrapsParseVersion(o *types.Func) bool {
+	for _, fn := range p.Funcs {
+		if fn.Object() != o || !p.InModule(fn) || len(fn.Params) != 1 {
+			continue
+		}
+		n := 0
+		for _, r := range returnsOf(fn) {
+			for _, v := range returnValues(r, 0) {
+				if v == nil {
+					continue
+				}
+				for _, l := range p.origins(v, 0) {
+					switch {
+					case l.Kind == "call" && l.Callee != nil && isFunc(l.Callee, "github.com/apparentlymart/go-versions/versions", "ParseVersion"):
+						n++
+					case l.Kind == "global" || l.Kind == "zero" || l.Kind == "const":
+					default:
+						return false
+					}
+				}
+			}
+		}
+		return n > 0
+	}
+	return false
 }
